@@ -44,6 +44,7 @@ func checkC15(c *Ctx) {
 		c02Newline(c, p, m)
 		c16Timestamp(c, p, m)
 		attrCopiesWhole(c, p, "R15.3")
+		c15ThruList(c, p, m)
 		c03Routing(c, p, m)
 		c09Pooled(c, p, m, "R09.1", feasibleModes)
 		c08Stores(c, p, m)
@@ -1044,4 +1045,50 @@ func isNewlineConst(v ssa.Value) bool {
 		}
 	}
 	return false
+}
+
+// c15ThruList: the attribute list WriteThru hands to the printer is the record's list (or its clone): nothing is
+// added to it on the way (values picked from the context would shadow a record attribute of the same key).
+func c15ThruList(c *Ctx, p *Prog, m *Model) {
+	r := c.R
+	wt := p.Method(p.Slog, "Entry", "WriteThru")
+	pr := p.Method(p.Slog, "Entry", "print")
+	if wt == nil || pr == nil {
+		r.Unk("R15.3", "WriteThru:list", "-", "WriteThru / print not found")
+		return
+	}
+	var ap *ssa.Parameter
+	for _, q := range wt.Params {
+		if sl, ok := q.Type().Underlying().(*types.Slice); ok && typeName(sl.Elem()) == "Attr" {
+			ap = q
+		}
+	}
+	n := 0
+	for _, cs := range callsTo(wt, pr) {
+		for _, a := range cs.Common().Args {
+			if sl, ok := a.Type().Underlying().(*types.Slice); !ok || typeName(sl.Elem()) != "Attr" {
+				continue
+			}
+			n++
+			v := strip(a)
+			ok := ap != nil && v == ssa.Value(ap)
+			if call, isCall := v.(*ssa.Call); isCall {
+				if cal := calleeOf(call); cal != nil && origin(cal).String() == "slices.Clone" && strip(call.Common().Args[0]) == ssa.Value(ap) {
+					ok = true
+				}
+				if isBuiltinCall(call, "append") && len(call.Common().Args) == 2 && strip(call.Common().Args[1]) == ssa.Value(ap) {
+					if base := strip(call.Common().Args[0]); isNilConst(base) {
+						ok = true
+					} else if _, isMk := base.(*ssa.MakeSlice); isMk {
+						ok = true
+					}
+				}
+			}
+			r.Check(ok, "R15.3", "WriteThru:list", p.Pos(instrPos(cs)), "the printer receives the record's attribute list (itself or its clone)",
+				"the list WriteThru hands to the printer is "+m.valDesc(v)+", not the record's own list or a plain copy of it: attributes are added (or dropped) between the log/slog record and the printed record")
+		}
+	}
+	if n == 0 {
+		r.Unk("R15.3", "WriteThru:list", p.FuncPos(wt), "WriteThru hands no attribute list to the printer")
+	}
 }
